@@ -1,6 +1,7 @@
 package main
 
 import (
+	"go/ast"
 	"go/token"
 	"os"
 	"strings"
@@ -275,6 +276,89 @@ func runC20(c *Ctx) {
 		if n == 0 {
 			c.ob("C20-R6", cachePkg+"."+name+"#overwrite-branch", entry.Pos(), false, "no key-already-present branch found")
 		}
+	}
+
+	// R8: growth of the byte count consults the byte limit
+	c.rule("C20-R8", "MPT: the byte size never exceeds the configured limit only if every operation that makes the accounted size grow looks at the limit: in pkg/cache no path leads from the entry of an exported method through an addition to LRUCache.currentSize to a return without evaluating a condition on LRUCache.maxSize (the can-never-fit rejection, the evict-until-fits loop) before or after the addition - in the method itself or in a helper it calls. Replacing the value of a key that is cached already is such a growth")
+	{
+		consults := func(f *ssa.Function) bool {
+			r := false
+			eachInstr(f, func(_ *ssa.BasicBlock, _ int, ins ssa.Instruction) {
+				if iff, ok := ins.(*ssa.If); ok && derivesFrom(iff.Cond, func(v ssa.Value) bool { return loadedFromField(v, "LRUCache", "maxSize") }) {
+					r = true
+				}
+			})
+			return r
+		}
+		fns := c.srcFuncs(cachePkg)
+		isConsult := func(x ssa.Instruction) bool {
+			if iff, ok := x.(*ssa.If); ok {
+				return derivesFrom(iff.Cond, func(v ssa.Value) bool { return loadedFromField(v, "LRUCache", "maxSize") })
+			}
+			if cl, ok := x.(*ssa.Call); ok {
+				if sf := staticFn(cl); sf != nil && sf.Pkg != nil && sf.Pkg.Pkg.Path() == modPath+"/"+cachePkg {
+					return consults(sf)
+				}
+			}
+			return false
+		}
+		unguarded := map[*ssa.Function]bool{} // helpers whose growth is not judged in themselves: lifted to their callers
+		nAdds := 0
+		for round := 0; round < 3; round++ {
+			for _, fn := range fns {
+				if fn.Signature.Recv() == nil || unguarded[fn] {
+					continue
+				}
+				var adds []ssa.Instruction
+				eachInstr(fn, func(_ *ssa.BasicBlock, _ int, ins ssa.Instruction) {
+					switch x := ins.(type) {
+					case *ssa.Store:
+						if !isStoreToField(x, "LRUCache", "currentSize") {
+							return
+						}
+						if bo, ok := x.Val.(*ssa.BinOp); ok && bo.Op == token.ADD && (loadedFromField(bo.X, "LRUCache", "currentSize") || loadedFromField(bo.Y, "LRUCache", "currentSize")) {
+							adds = append(adds, ins)
+						}
+					case *ssa.Call:
+						if sf := staticFn(x); sf != nil && unguarded[sf] {
+							adds = append(adds, ins)
+						}
+					}
+				})
+				for k, a := range adds {
+					q1 := &pathQuery{fn: fn, stop: isConsult, target: func(x ssa.Instruction) bool { return x == a }}
+					h1, p1 := q1.fromEntry()
+					bad := false
+					var path []*ssa.BasicBlock
+					if h1 != nil {
+						q2 := &pathQuery{fn: fn, stop: isConsult, target: isReturn}
+						h2, p2 := q2.after(a)
+						if h2 != nil {
+							bad = true
+							path = append(p1, p2...)
+						}
+					}
+					callers := 0
+					for _, g := range fns {
+						eachCall(g, func(cl ssa.CallInstruction) {
+							if staticFn(cl) == fn {
+								callers++
+							}
+						})
+					}
+					if bad && !ast.IsExported(fn.Name()) && callers > 0 {
+						unguarded[fn] = true // judged where it is called
+						continue
+					}
+					if round == 2 {
+						nAdds++
+						c.ob("C20-R8", fnKey(fn)+"#growth-consults-the-byte-limit-"+itoa(k+1), a.Pos(), !bad, "the accounted size grows on a path that never looks at the configured byte limit: replacing the value of a cached key by a larger one takes the cache above its limit (a value that is refused for a new key as too large is accepted for an existing one) and nothing is evicted", c.blockPath(path)...)
+					}
+				}
+			}
+		}
+		c.Sites["C20-R8#size-additions"] = nAdds
+		c.floor("C20-R8", 2)
 	}
 
 	// R5: advisory — callbacks invoked while holding the lock
